@@ -30,6 +30,7 @@
 #include <iostream>
 #include <vector>
 #include <algorithm>
+#include <functional>
 
 #include "constant.hh"
 #include "flag_saver.hh"
@@ -192,19 +193,24 @@ constant::operator< (constant that) const
   if (dom1 != nullptr && dom2 == nullptr)
     return false;
 
-  if (// If both domains are arithmetic, we can directly compare the
-      // values.
-      (dom1->safe_arith () && dom2->safe_arith ())
+  // Order by value first.  That is what arithmetic domains and
+  // domains with a common sub-domain need, and ordering unrelated
+  // domains by value as well keeps the whole order transitive (mixing
+  // value order with domain order used to produce cycles such as
+  // dec 1 < hex 3 < T_CONST < dec 1).
+  if (compare_magnitudes ())
+    return true;
+  if (that.value () < value ())
+    return false;
 
-      // Maybe we can find a common sub-domain that covers them both.
-      // That has no effect for arithmetic domains, so we don't need
-      // to care if both are arithmetic or only one of them is.
-      || (dom1->most_enclosing (value ())
-	  == dom2->most_enclosing (that.value ())))
-    return compare_magnitudes ();
-
-  // Otherwise order the two constants by their domains.
-  return dom1 < dom2;
+  // The values are the same.  The constants are equal if both domains
+  // are arithmetic, or if there is a common sub-domain that covers
+  // them both.  Otherwise break the tie by the domains.
+  constant_dom const *grp1 = dom1->safe_arith ()
+    ? &dec_constant_dom : dom1->most_enclosing (value ());
+  constant_dom const *grp2 = dom2->safe_arith ()
+    ? &dec_constant_dom : dom2->most_enclosing (that.value ());
+  return std::less <constant_dom const *> {} (grp1, grp2);
 }
 
 bool
